@@ -51,6 +51,9 @@ CoreTmp  == "meson-private/coredata.dat~"
 CorePrev == "meson-private/coredata.dat.prev"
 Cmdl     == "meson-private/cmd_line.txt"
 BuildDat == "meson-private/build.dat"
+\* the private copy of a machine file that was given as a pipe (meson-private/<uuid>.native.ini,
+\* name normalised by the harness): the *only* copy; coredata.dat and cmd_line.txt name it
+MFile    == "meson-private/$PIPED.native.ini"
 Ninja    == "build.ninja"
 NinjaTmp == "build.ninja~"
 
@@ -138,6 +141,10 @@ Run(sc, k) == IF k = 0 THEN PreState(sc) ELSE Apply(Run(sc, k - 1), sc.ops, k)
 (*   m  set by a machine file (--native-file): in coredata.dat; cmd_line.txt *)
 (*      [properties] only records *which* files                             *)
 (*   e  taken from the environment of the first run: only in coredata.dat   *)
+(*  4. Whenever machine files are taken from the core data or from          *)
+(*     cmd_line.txt and the directory holds the private copy of a piped     *)
+(*     machine file, that copy is read: missing -> the follow-up fails;     *)
+(*     torn -> the values it set are gone.                                  *)
 (* Result: ok, whether --reconfigure applies, and per class the generation  *)
 (* of values the directory ends with ("default": nothing recorded survived).*)
 
@@ -148,13 +155,21 @@ RecoverOutcome(fs) ==
         l == fs[Cmdl]
         reconf == c.st # "absent"
         recorded == IF l.st = "full" THEN l.ver ELSE "default"
+        \* does the follow-up take the list of machine files from somewhere
+        reads == \/ c.st = "full"
+                 \/ (c.st = "absent" /\ l.st = "full" /\ FirstRunReadsCmdline)
+                 \/ (c.st \notin {"full", "absent"} /\ l.st = "full")
+        piped == MFile \in DOMAIN fs
+        gone  == piped /\ reads /\ fs[MFile].st = "absent"
+        M(v)  == IF piped /\ reads /\ Torn(fs[MFile]) THEN "default" ELSE v
     IN IF Torn(l) /\ StrictCmdline THEN Out(FALSE, reconf, "none", "none", "none", "cmdline-unreadable")
-       ELSE IF c.st = "full" THEN Out(TRUE, TRUE, c.ver, c.ver, c.ver, "coredata")
+       ELSE IF gone THEN Out(FALSE, reconf, "none", "none", "none", "machine-file-missing")
+       ELSE IF c.st = "full" THEN Out(TRUE, TRUE, c.ver, M(c.ver), c.ver, "coredata")
        ELSE IF c.st = "absent"
-            THEN Out(TRUE, FALSE, recorded, IF FirstRunReadsCmdline THEN recorded ELSE "default", "default",
+            THEN Out(TRUE, FALSE, recorded, IF FirstRunReadsCmdline THEN M(recorded) ELSE "default", "default",
                      IF l.st = "full" THEN "cmdline" ELSE "first")
        ELSE IF l.st = "absent" THEN Out(FALSE, TRUE, "none", "none", "none", "coredata-unreadable")
-       ELSE Out(TRUE, TRUE, recorded, recorded, "default", "regenerated")
+       ELSE Out(TRUE, TRUE, recorded, M(recorded), "default", "regenerated")
 
 \* scripts say which classes carry a non-default value (usesM, usesE; class d always does)
 GenAllowed(sc, v) == v \in {"old", "new"} \/ (v = "default" /\ sc.fresh)
